@@ -38,7 +38,7 @@ vars == <<mvars, l, h, started, fin, mism, bad>>
 
 CB == INSTANCE CodecBuild WITH Procs <- TProcs, Want <- [p \in TProcs |-> ""], Publish <- PublishMode, TypeDef <- TraceTypeDef
 
-UsePoints == {"mapassign", "intern.miss", "intern.locked", "intern.publish"}
+UsePoints == {"mapassign", "kpool.get", "kpool.put", "intern.miss", "intern.locked", "intern.publish"}
 PStr(p) == "p" \o ToString(p)
 
 \* the model's initial state for one event: its processes at the entry of their request, one fresh registry
